@@ -67,15 +67,22 @@ Proof.
   - destruct (c_write (eu_acl e)); [discriminate|exact Hw].
 Qed.
 
-Lemma build_no_nil c : no_nil (build c).
+Lemma build_users_no_nil c : no_nil (build_users c).
 Proof.
-  unfold build. set (dr := default_pat (c_read (default_acl c))). set (dw := default_pat (c_write (default_acl c))).
+  unfold build_users. set (dr := default_pat (c_read (default_acl c))). set (dw := default_pat (c_write (default_acl c))).
   assert (dr <> PNil) as Hr by (unfold dr, default_pat; destruct (c_read (default_acl c)); discriminate).
   assert (dw <> PNil) as Hw by (unfold dw, default_pat; destruct (c_write (default_acl c)); discriminate).
   apply load_enh_no_nil; [exact Hr|exact Hw|]. apply load_enh_no_nil; [exact Hr|exact Hw|].
   generalize (users c). intros us. assert (no_nil []) as H0 by (intros u d H; discriminate).
   revert H0. generalize (@nil (str * cred)). induction us as [|[u h] r IH]; intros m Hm; [exact Hm|].
   cbn [fold_left]. apply IH. apply put_no_nil; cbn [cr_read cr_write fst snd]; assumption.
+Qed.
+
+Lemma build_no_nil c : no_nil (build c).
+Proof.
+  unfold build. pose proof (build_users_no_nil c) as H. destruct (build_users c) as [|x m]; [|exact H].
+  intros u d Hl. cbn [lookup] in Hl. destruct (str_eqb u guest_name); [|discriminate]. inversion Hl; subst. cbn [cr_read cr_write].
+  split; unfold default_pat; [destruct (c_read (default_acl c))|destruct (c_write (default_acl c))]; discriminate.
 Qed.
 
 (* hence ACL checks never crash *)
